@@ -419,6 +419,30 @@ def run(rep: Report, tier: str) -> None:  # noqa: C901
                 if flt:
                     rep.add(transp.fnd("R07.8", "numbering-loop", vhr, n.lineno,
                                        f"visit_HRuleset numbers only a filtered subset of the rules (`{flt}`): sort_elements indexes the rule list by these numbers, so the other rules are dropped or mis-ordered"))
+    # ---- R07.10 hierarchy(... all): the operand rows and the computed rows are united over the RESULT's components, not over every operand component ----
+    rep.rule("R07.10", "hierarchy output `all`: the column list shared by the operand and the computed nodes leaves out plain attributes (the computed part and the result do not have them)")
+    hs = P.func(f"{TR}._build_hierarchy_sql")
+    n10 = 0
+    for sk_text, sk_line in _skeletons(P, hs):
+        if "_computed" not in sk_text or "UNION" not in sk_text.upper():
+            continue
+        for h in set(re.findall(re.escape(L) + r"(\w+)" + re.escape(R_), sk_text)):
+            defs = [n.value for n in walk_no_nested(hs.node) if isinstance(n, (ast.Assign, ast.AnnAssign)) and n.value is not None
+                    and any(isinstance(t, ast.Name) and t.id == h for t in (n.targets if isinstance(n, ast.Assign) else [n.target]))]
+            # follow one join(): all_cols_csv = ", ".join(all_cols)
+            srcs = []
+            for d in defs:
+                for x in ast.walk(d):
+                    if isinstance(x, ast.Name) and x.id != h:
+                        srcs += [n.value for n in walk_no_nested(hs.node) if isinstance(n, (ast.Assign, ast.AnnAssign)) and n.value is not None
+                                 and any(isinstance(t, ast.Name) and t.id == x.id for t in (n.targets if isinstance(n, ast.Assign) else [n.target]))]
+            for d in defs + srcs:
+                if any(isinstance(c, ast.Call) and isinstance(c.func, ast.Attribute) and c.func.attr == "get_components_names" for c in ast.walk(d)):
+                    n10 += 1
+                    rep.add(transp.fnd("R07.10", "all-output-columns", hs, sk_line,
+                                       f"the `all` output unites the operand with the computed nodes over `{src(d)[:70]}` - every component of the operand, plain attributes included; the computed "
+                                       f"part has no such column, so hierarchy(DS_1, hr ... all) over a dataset with an attribute ends in a raw BinderException"))
+        rep.instance("R07.10", f"all-output-union@{sk_line}", sample={"sql": " ".join(sk_text.split())[:120]})
     # ---- R07.9 a validation operator leaves its operands (the validated dataset, the imbalance dataset) as it found them ----
     rep.rule("R07.9", "check / check_datapoint / check_hierarchy validators do not mutate the structure of their operands")
     from sa.checks.c12 import operand_mutations
